@@ -53,7 +53,8 @@ func c18Planned(e *Env, viol func(kind, sig, what, chk string, rep any), mu *syn
 				continue
 			}
 			for _, cc := range ct.Cols {
-				if dt.col(cc.Name) == nil {
+				// (a VIRTUAL generated column stores nothing: dropping it destroys no data)
+				if dt.col(cc.Name) == nil && !(cc.Gen != "" && !cc.GenStored) {
 					want["DS103"] = true
 				}
 			}
